@@ -215,8 +215,8 @@ def genPe (table : Bytes) (va size : Nat) (length : Int) (first last : Bytes) (p
 /-- externals for `gen.pe.append`: `SignAuthenticode` returns the signature that the real library produced -/
 def genPeSigner (sig : Bytes) : authenticode.Ext :=
   { SignAuthenticode := fun _ _ r _ => (r, sig, none),
-    ParseAuthenticode := fun _ => (⟨⟨⟨⟩, [], [], [], ⟨⟩⟩, ⟨⟩, []⟩, some "unused"),
-    Authenticode_verifyDigest := fun _ _ _ _ s => (s, false, some "unused"),
+    pkcs7 := { signerinfo_verify := fun _ _ _ => (false, some "unused") },
+    ParseAuthenticode := fun _ => (⟨⟨⟨⟩, [], [], [], ⟨⟩⟩, ⟨[], ⟨⟩⟩, []⟩, some "unused"),
     makeSectionReader := fun _ => ⟨[]⟩,
     crypto_Hash_Sum := fun _ _ => [] }
 
@@ -240,36 +240,40 @@ def genPeSignatures (table : String) : String :=
   let r := (genPe t 0 0 0 [] [] 0).Signatures (t.length + 1)
   if r.2.isNone then "ok [" ++ ",".intercalate (r.1.map genWinCertStr) ++ "]" else "err"
 
-/-- `gen.pe.verify`: the translated `Verify` loop (with the translated closure `imageDigest` and its memo map) on
-    `table`, with externals that answer for the k-th entry body what the harness observed of the real
-    `ParseAuthenticode` / `(*Authenticode).Verify` on that body (`verdicts`, one letter per listed entry: `P` does not
-    parse, `E` verification error, `T` / `F` verified true / false).  The entry is found by its body; an `Authenticode`
-    value carries the index in `Digest`.  `verifyDigest` asks the closure it is handed for the digest under
-    `crypto.SHA256` (5) and answers the observed verdict only if the closure answers the digest of the image without an
-    error — for the first entry computed, for every later one out of the map — and hands back the map the closure left;
-    the digest external marks its input (`alg :: bytes`), the hash input is one marker byte. -/
-def genPeVerify (table verdicts : String) : String :=
+/-- a dotted object identifier (`2.16.840.1.101.3.4.2.1`) -/
+def oidArg (s : String) : List Int := if s == "-" then [] else (s.splitOn ".").map (fun x => x.toInt?.getD 0)
+
+/-- `gen.pe.verify`: the translated `Verify` loop — with the translated closure `imageDigest` and its memo map, and the
+    TRANSLATED `(*Authenticode).verifyDigest` (digest algorithm, digest length, call of the closure, digest comparison,
+    `Pkcs.Verify`) and `pkcs7.PKCS7.Verify` — on `table`.  The externals answer for the k-th listed entry body what the
+    harness observed of the real library on that body (`entries`, comma-separated, one item per listed entry): `P` it does
+    not parse; otherwise `oid;digest;V`: `ParseAuthenticode` answers a value with that digest algorithm, that embedded
+    digest and a PKCS#7 with ONE signer entry that names the certificate, whose `signerinfo.verify` answers `V` (what the
+    real `a.Pkcs.Verify(cert)` said: `T` / `F` true / false, `E` an error).  The entry is found by its body; its PKCS#7
+    carries the index in `ContentInfo`.  The hash input is one marker byte; the digest external answers `sha` (the real
+    SHA-256 of the image's hash input) for `crypto.SHA256` (5) on it and marks every other input (`alg :: bytes`). -/
+def genPeVerify (table entries sha : String) : String :=
   let t := unhex table
   let p := genPe t 0 0 0 [] [] 0
-  let entries := (p.Signatures (t.length + 1)).1
-  let vs := verdicts.toList
-  let idxOf := fun (b : Bytes) => (entries.map (·.Certificate)).idxOf b
+  let listed := (p.Signatures (t.length + 1)).1
+  let es := if entries == "-" then [] else entries.splitOn ","
+  let idxOf := fun (b : Bytes) => (listed.map (·.Certificate)).idxOf b
   let X : authenticode.Ext :=
-    { SignAuthenticode := fun _ _ r _ => (r, [], some "unused"),
+    { pkcs7 := { signerinfo_verify := fun _ _ content =>
+        let k := (content.getD 0 0).toNat + 256 * (content.getD 1 0).toNat
+        match ((es.getD k "").splitOn ";").getD 2 "E" with
+        | "T" => (true, none)
+        | "F" => (false, none)
+        | _ => (false, some "verify") },
+      SignAuthenticode := fun _ _ r _ => (r, [], some "unused"),
       ParseAuthenticode := fun b =>
         let k := idxOf b
-        (⟨⟨⟨⟩, [], [], [], ⟨⟩⟩, ⟨⟩, [UInt8.ofNat (k % 256), UInt8.ofNat (k / 256)]⟩,
-         if vs.getD k 'P' == 'P' then some "parse" else none),
-      Authenticode_verifyDigest := fun a _ _ step s =>
-        let r := step s 5
-        let k := (a.Digest.getD 0 0).toNat + 256 * (a.Digest.getD 1 0).toNat
-        if r.2.2.isSome || r.2.1 != [5, 0xaa] then (r.1, false, some "the closure did not answer the image digest")
-        else match vs.getD k 'E' with
-        | 'T' => (r.1, true, none)
-        | 'F' => (r.1, false, none)
-        | _ => (r.1, false, some "verify"),
+        let f := (es.getD k "P").splitOn ";"
+        (⟨⟨⟨⟩, [⟨1, [], ⟨⟩, ⟨⟨⟩, [], ⟨⟩, [], []⟩, ⟨⟩, ⟨[], 0⟩⟩], [UInt8.ofNat (k % 256), UInt8.ofNat (k / 256)], [], ⟨⟩⟩,
+          ⟨oidArg (f.getD 0 "-"), ⟨⟩⟩, unhex (f.getD 1 "-")⟩,
+         if f.length < 3 then some "parse" else none),
       makeSectionReader := fun _ => ⟨[0xaa]⟩,
-      crypto_Hash_Sum := fun alg bs => alg.toUInt8 :: bs }
+      crypto_Hash_Sum := fun alg bs => if alg == 5 && bs == [0xaa] then unhex sha else alg.toUInt8 :: bs }
   let r := authenticode.PECOFFBinary.Verify (t.length + 1) X p ⟨[], [], [], 0⟩
   match r.2 with
   | none => s!"ok {r.1}"
@@ -344,7 +348,7 @@ def handleGen (op : String) (args : List String) : Option String :=
   | "gen.pe.append", [table, va, size, length, sig, first, last, pad] =>
     some (genPeAppend table va size length sig first last pad)
   | "gen.pe.signatures", [table] => some (genPeSignatures table)
-  | "gen.pe.verify", [table, verdicts] => some (genPeVerify table verdicts)
+  | "gen.pe.verify", [table, entries, sha] => some (genPeVerify table entries sha)
   | "gen.skipped", [] => some (toString (skipped.map (·.1)))
   | _, _ => none
 
